@@ -26,6 +26,7 @@ const (
 	BadgerMem   = "badger-mem"   // store/badger in memory behind the monitor
 	BadgerDisk  = "badger-disk"  // store/badger on disk behind the monitor
 	BadgerShip  = "badger-ship"  // badgerstore.Open(dir): shipped default options, behind the monitor
+	BadgerRaw   = "badger-open"  // store/badger on disk handed to clover directly: the store's real buffer-reuse behaviour, no monitor in between
 )
 
 type Handle struct {
@@ -137,6 +138,19 @@ func Open(c *core.Ctx, backend, dir string) (*Handle, error) {
 		h.DB = db
 		return h, nil
 	}
+	if backend == BadgerRaw {
+		inner, err := OpenInner(BadgerDisk, dir)
+		if err != nil {
+			return nil, err
+		}
+		h.Inner = inner
+		db, err := clover.OpenWithStore(inner)
+		if err != nil {
+			return nil, err
+		}
+		h.DB = db
+		return h, nil
+	}
 	inner, err := OpenInner(backend, dir)
 	if err != nil {
 		return nil, err
@@ -192,7 +206,7 @@ func (h *Handle) Reopen(c *core.Ctx) error {
 }
 
 func (h *Handle) Persistent() bool {
-	return h.Backend == BBolt || h.Backend == BBoltRaw || h.Backend == BadgerDisk || h.Backend == BadgerShip
+	return h.Backend == BBolt || h.Backend == BBoltRaw || h.Backend == BadgerDisk || h.Backend == BadgerShip || h.Backend == BadgerRaw
 }
 
 // Snapshot lists the raw store content (nil when there is no monitor seam).
